@@ -1,7 +1,7 @@
 #!/bin/bash
 # usage: tools/seed_cycle.sh <batchdir> <ID> [other IDs to run too]  — confirm + run the check for both seeds of <ID>
 b=$1; id=$2; shift 2
-for i in 1 2 3; do
+for i in 1 2; do
   d=$b/out/$id/$i; [ -f $d/patch.diff ] || continue
   tools/confirm_seed.sh $d
   tools/try_patch.sh $d/patch.diff $id "$@" 2>&1 | cut -c1-700
